@@ -94,7 +94,7 @@ Definition prop_case (c : case) : bool :=
           | _ => true
           end &&
           (* suggestions: exactly the rows at or above Historic, highest priority first *)
-          list_eqb sr_eqb (suggest_scan_ranges q' Historic) sugg
+          sugg_ok b (map row_of sugg)
       | _ => false
       end
   | QLoop b t steps rewound final sugg fully =>
